@@ -476,6 +476,10 @@ pub fn conc(a: &Args) {
             // ---- serialise in the order of the critical sections (lock hooks)
             let mut cur: std::collections::HashMap<u64, (String, String)> = Default::default();
             let mut open_ret: std::collections::HashMap<u64, usize> = Default::default();
+            // calls that returned without ever entering the critical section: reported as their own
+            // (empty) section as soon as no section is open, so that they do not tear another one apart
+            let mut sectionless: Vec<Value> = vec![];
+            let mut open_sections = 0usize;
             for h in hooks {
                 match h {
                     Hk::ECall(tid, op, m) => {
@@ -485,6 +489,7 @@ pub fn conc(a: &Args) {
                         cur.insert(tid, (op, m));
                     }
                     Hk::Locked(tid) => {
+                        open_sections += 1;
                         evs.push(json!({"ev":"lock","t":tid}));
                         if let Some((op, m)) = cur.get(&tid) {
                             evs.push(json!({"ev":"call","op":op,"hex":hex(m.as_bytes()),"len":m.len()}));
@@ -499,6 +504,10 @@ pub fn conc(a: &Args) {
                         open_ret.insert(tid, evs.len());
                         evs.push(json!(null)); // the result is known when the call returns
                         evs.push(json!({"ev":"unlock","t":tid}));
+                        open_sections = open_sections.saturating_sub(1);
+                        if open_sections == 0 {
+                            evs.append(&mut sectionless);
+                        }
                     }
                     Hk::ERet(tid, r) => {
                         let rv = match &r {
@@ -511,17 +520,21 @@ pub fn conc(a: &Args) {
                             Some(ix) => evs[ix] = rv,
                             None => {
                                 if let Some((op, m)) = c {
-                                    if op != "drop" {
+                                    if op == "drop" {
+                                        evs.push(rv);
+                                    } else {
                                         // the call never entered the critical section
-                                        evs.push(json!({"ev":"call","op":op,"hex":hex(m.as_bytes()),"len":m.len()}));
+                                        let target = if open_sections == 0 { &mut evs } else { &mut sectionless };
+                                        target.push(json!({"ev":"call","op":op,"hex":hex(m.as_bytes()),"len":m.len(),"sectionless":true}));
+                                        target.push(rv);
                                     }
-                                    evs.push(rv);
                                 }
                             }
                         }
                     }
                 }
             }
+            evs.append(&mut sectionless);
         } else {
             // ---- unbuffered: calls do not interact; every emit is call / att / ret, the datagram is
             // found by content (metrics are unique)
